@@ -133,6 +133,53 @@ def run_one(job):
         shutil.rmtree(tmp, ignore_errors=True)
 
 
+def run_benign(job):
+    bb, budget = job
+    tmp = tempfile.mkdtemp(prefix='sz_ben_', dir='/tmp')
+    try:
+        shutil.copytree('/repo/streamz', os.path.join(tmp, 'streamz'), ignore=shutil.ignore_patterns('__pycache__'))
+        path = os.path.join(tmp, bb['file'])
+        s = open(path).read()
+        applied = 0
+        for old, new in bb['pairs']:
+            if old in s:
+                s = s.replace(old, new)
+                applied += 1
+        if applied == 0:
+            return (bb['id'], 'NOT-APPLICABLE', [])
+        open(path, 'w').write(s)
+        c = subprocess.run([sys.executable, '-c', 'import sys; sys.path.insert(0, %r); import streamz, streamz.dask, streamz.dataframe' % tmp],
+                           capture_output=True, text=True)
+        if c.returncode != 0:
+            return (bb['id'], 'BROKEN: ' + c.stderr[-300:], [])
+        res = []
+        for prop in bb['props']:
+            env = dict(os.environ, STREAMZ_SRC=tmp, PYTHONHASHSEED='0')
+            r = subprocess.run([sys.executable, os.path.join(HERE, 'check.py'), prop, '--tier', 'quick', '--budget', str(budget),
+                                '--workers', '4', '--no-evidence'], capture_output=True, text=True, env=env, timeout=900, cwd=HERE)
+            lines = [ln for ln in r.stdout.splitlines() if ln.startswith('  oracle=') or ln.startswith('HARNESS')]
+            res.append((prop, r.returncode, lines[:1]))
+        ok = all(rc == 0 for _, rc, _ in res)
+        return (bb['id'], 'GREEN' if ok else 'ALARM', res)
+    finally:
+        shutil.rmtree(tmp, ignore_errors=True)
+
+
+def cmd_benign(a):
+    sys.path.insert(0, os.path.join(HERE, 'tools'))
+    import benign
+    only = set(a.only.split(',')) if a.only else None
+    jobs = [(bb, a.budget) for bb in benign.B if not only or bb['id'] in only]
+    bad = []
+    with cf.ThreadPoolExecutor(max_workers=a.jobs) as ex:
+        for ident, verdict, res in ex.map(run_benign, jobs):
+            print('%-32s %-14s %s' % (ident, verdict, ' | '.join('%s rc=%s %s' % (p, rc, (ls[0][:140] if ls else '')) for p, rc, ls in res)), flush=True)
+            if verdict == 'ALARM':
+                bad.append(ident)
+    print('benign refactorings: %d alarms %r' % (len(bad), bad))
+    return 1 if bad else 0
+
+
 def cmd_mutants(a):
     sys.path.insert(0, os.path.join(HERE, 'tools'))
     import mutants
@@ -184,7 +231,13 @@ def main():
     mu.add_argument('--jobs', type=int, default=4)
     mu.add_argument('--all-props', action='store_true')
     mu.add_argument('--no-reverts', action='store_true')
+    be = sub.add_parser('benign')
+    be.add_argument('--only')
+    be.add_argument('--budget', type=float, default=12)
+    be.add_argument('--jobs', type=int, default=4)
     a = ap.parse_args()
+    if a.cmd == 'benign':
+        return cmd_benign(a)
     if a.cmd == 'determinism':
         return cmd_determinism(a)
     if a.cmd == 'mutants':
